@@ -15,6 +15,7 @@ from pathlib import Path
 from . import common, c15_tables, c15_worker
 from . import c15_terms as T
 from . import c15_hunt as H
+from . import c15_history as HH
 from .c15_worker import _Timeout
 
 PID = "C15"
@@ -384,6 +385,81 @@ def evaluate_terms(mods, terms, wd, nproc):
     return c15_worker.run_jobs_retry(srcs, make_expr_job(mods), nproc, str(wd / "sandbox"), suspect_result)
 
 
+def glist_str(names) -> str:
+    return "[" + "; ".join(T.gstr(n) for n in names) + "]"
+
+
+def _step_signature(step: dict, r: dict):
+    """what a step delivered, for the comparison between a fresh process and a process with a history"""
+    if r is None:
+        return None
+    if step["a"] == "lv":
+        return r.get("lv")
+    return [r.get("new"), r.get("rule_exc")]
+
+
+def _public_steps(steps: list) -> list:
+    return [{k: v for k, v in s.items() if k != "on"} for s in steps]
+
+
+def history_stage(mods, wd, nproc, hist):
+    """round 5 (seed C15-d): every evaluated builtin x every rebinding construct, the source without and the source
+    with the rebinding evaluated in BOTH orders, each order in one fresh process (see harness/c15_history.py).
+    -> (program failures, expression violations, history-dependent results, model cases, number of steps)"""
+    pure = set(mods["constants"].PURE_BUILTIN_FUNCTIONS)
+    pairs, uncovered = HH.pairs(pure, quick=False)
+    hists, index = [], []
+    for p in pairs:
+        for order in ("PR", "RP"):
+            hists.append(p[order[0]] + p[order[1]])
+            index.append((p, order))
+    res = HH.run_histories_retry(hists, HH.make_step_job(mods), nproc, str(wd / "sandbox"), suspect_result)
+    failures, expr_viol, dependent, cases = [], [], [], []
+    hist["history:pairs"] += len(pairs)
+    if uncovered:
+        hist["history:builtins-without-a-call-in-the-table"] += len(uncovered)
+        common.log(f"note: C15 history family has no call for {uncovered} (harness/c15_history.CALLS)")
+    for k, ((p, order), h, rs) in enumerate(zip(index, hists, res)):
+        other = res[k ^ 1]                  # the opposite order, in which the second source of this history is first
+        n1 = len(p[order[0]])
+        for i, (s, r) in enumerate(zip(h, rs)):
+            second = i >= n1
+            fresh = other[i - n1] if second else None
+            r = r or {"hang": True}
+            differs = second and fresh is not None and _step_signature(s, r) != _step_signature(s, fresh)
+            hist[f"history:{s['a']}:{'second' if second else 'first'}"] += 1
+            where = {"history": _public_steps(h[:i + 1]), "step": i, "builtin": p["name"], "rebinding": p["kind"],
+                     "order": "rebinding source first" if order == "RP" else "rebinding source second"}
+            if s["a"] == "lv":
+                lvj = r.get("lv") or ["hang"]
+                problem = direct_disagreement(r)
+                if not problem and (r.get("lv_out") or lvj[0] in ("hang", "crash")):
+                    problem = f"literal_value did not return quietly: {lvj[:2]} stdout {r.get('lv_out', '')!r}"
+                if problem:
+                    expr_viol.append({"kind": "history-expression", "expr": s["expr"], "source": s["src"],
+                                      "problem": problem, "in_a_fresh_process": fresh.get("lv") if fresh else None,
+                                      **where})
+                cases.append((sorted(HH.bound_names(s["src"]) & pure), s["expr"], outcome(lvj), where))
+            else:
+                v = program_verdict(r)
+                if v:
+                    f_ = {"expr": p["call"], "shape": f"history/{p['kind']}", "rule": s["rule"], "program": s["src"],
+                          "output": r.get("new"), "problem": v}
+                    if differs and program_verdict(fresh) is None:
+                        # fails only after the other source was handled in the same process: never a known finding
+                        f_.update(where, history_only=True,
+                                  in_a_fresh_process=_step_signature(s, fresh))
+                    failures.append(f_)
+            if differs:
+                dependent.append({"kind": "history-dependent", "expr": s.get("expr", p["call"]),
+                                  "step_result": _step_signature(s, r), "in_a_fresh_process": _step_signature(s, fresh),
+                                  "problem": "the same call on the same source gives a different result after another "
+                                             "source was handled in the same process: literal_value is a function "
+                                             "of (expression, names the file rebinds) only", **where})
+    return failures, expr_viol, dependent, cases, sum(map(len, hists))
+
+
+
 def check(run: common.Run):
     try:
         _check(run)
@@ -521,6 +597,48 @@ def _check(run: common.Run):
         disagreements.append(d)
     stage["raw"] = round(time.time() - ts, 1)
 
+    # ---- call histories (round 5, seed C15-d): source without / with a rebinding of every evaluated builtin, both
+    # orders, one fresh process per order; see harness/c15_history.py
+    ts = time.time()
+    h_failures, h_expr, h_dependent, h_cases, h_steps = history_stage(mods, wd, nproc, hist)
+    disagreements.extend(h_dependent[:20])
+    # every literal_value step, whatever its place in its history, against LitValRbModel.lv_rb (rebound set, expr)
+    rb_items = []
+    for rb, src, lvo, where in h_cases:
+        try:
+            t = T.of_ast(ast.parse(src, mode="eval").body)
+            rb_items.append((f"({glist_str(rb)}, {T.gexpr(t)}, {T.glv(lvo if lvo[0] != 'hang' else ('crash', 'Hang'))})",
+                             rb, src, lvo, where))
+        except (ValueError, KeyError, AssertionError):
+            hist["history:not-in-the-model-language"] += 1
+    rfiles, rshards = [], []
+    for k in range(0, len(rb_items), SHARD):
+        shard = rb_items[k:k + SHARD]
+        pth = wd / f"rbcases_{k // SHARD}.v"
+        pth.write_text(IMPORTS + "Require Import Pyrefact.LitValRbModel.\n"
+                       "Definition cases : list (list string * expr * lvres) := [\n "
+                       + ";\n ".join(c[0] for c in shard) + "\n].\n"
+                       "Eval vm_compute in (bad_idx rb_case_ok cases).\n"
+                       "Eval vm_compute in (List.length (filter rb_case_claims cases)).\n")
+        rfiles.append(pth)
+        rshards.append(shard)
+    rres = common.run_case_files(rfiles)
+    rb_claims = 0
+    for pth, shard in zip(rfiles, rshards):
+        rc, out = rres[pth]
+        idx = common.parse_nat_list(out) if rc == 0 else None
+        if idx is None:
+            disagreements.append({"kind": "eval-failed", "file": pth.name, "log": out[-1500:]})
+            continue
+        rb_claims += parse_count(out)
+        for i in idx:
+            _, rb, src, lvo, where = shard[i]
+            disagreements.append({"kind": "rebound-case", "expr": src, "names_the_source_rebinds": rb,
+                                  "literal_value": list(map(str, lvo)), **where,
+                                  "problem": "core.literal_value on this node differs from LitValRbModel.lv_rb "
+                                             "(rebound names, expression)"})
+    stage["history"] = round(time.time() - ts, 1)
+
     # ---- end-to-end oracle (deterministic sweep): rules + format_code on programs around expressions
     sweep_exprs = [t for lab, t in labelled if lab.startswith("W:")]
     sweep_exprs += [t for lab, t in l1[::(97 if run.tier == "quick" else 7)]]
@@ -602,6 +720,8 @@ def _check(run: common.Run):
             failures.append({"expr": src, "shape": shape, "rule": rule, "program": text,
                              "output": (r or {}).get("new"), "problem": v})
 
+    failures = h_failures + failures        # the minimal witnesses of the history family come first
+
     # ---- consumer correspondence: what each rule did to the fixed shapes vs ConstFoldModel
     cons_items = []
     for (src, shape, rule), (_, text), r, t in zip(meta, jobs, pres, terms_of_job):
@@ -643,7 +763,7 @@ def _check(run: common.Run):
         hit = None
         for f in kf:
             pred = SIGS.get(f.fields.get("sig", ""))
-            if f.kind == "finding" and pred and pred(f_):
+            if f.kind == "finding" and pred and not f_.get("history_only") and pred(f_):
                 hit = f
                 break
         if hit is None:
@@ -675,12 +795,17 @@ def _check(run: common.Run):
         run.violation({"kind": "property-oracle", **f_,
                        "explanation": "a rule folded a condition / dropped an operand (or crashed, or had an effect) "
                                       "and the program's behaviour differs from Python's"}, True)
+    for d in h_expr[:5]:
+        run.violation({**d, "kind": "property-oracle-history",
+                       "explanation": "core.literal_value, called on this expression of this source after the earlier "
+                                      "steps of the history in the same process, returns a value that is not the value "
+                                      "Python computes for the expression where it stands"}, True)
     hard = [d for d in disagreements if d.get("kind") in ("direct", "nondeterministic-value")]
     for d in hard[:5]:
         run.violation({"kind": "property-oracle-expression", **d,
                        "explanation": "core.literal_value returns a value for this expression that is not the value "
                                       "Python computes (or not the same value in every interpreter process)"}, True)
-    if not unmatched and not hard:
+    if not unmatched and not hard and not h_expr:
         for d in disagreements[:5]:
             run.violation({"kind": "correspondence", "kernel": "K4", "detail": d,
                            "explanation": "core.literal_value vs LitValModel.lv, or CPython eval vs PyValModel.eval, "
@@ -693,7 +818,7 @@ def _check(run: common.Run):
 
     samples = [T.to_src(labelled[i][1]) for i in (0, 11, n_l1 // 2, n_l1 + 5, len(labelled) - 1) if i < len(labelled)]
     run.coverage.update(
-        evaluations=len(items) + len(jobs), distinct_nontrivial=len(distinct),
+        evaluations=len(items) + len(jobs) + h_steps, distinct_nontrivial=len(distinct),
         rule=("three-way on every case: core.literal_value (forked worker, 2 s timer, captured stdout) vs LitValModel.lv, "
               "and CPython eval vs PyValModel.eval. Level 1 = every expression with ONE operator over the 13-atom pool "
               "{None,True,False,-1,0,1,2,'','a',(),(0,),[],[1]}: 4 unary, 13 binary, and/or with 2 and 3 operands, 10 "
@@ -707,6 +832,8 @@ def _check(run: common.Run):
         samples=samples, exhaustive=(run.tier != "quick"), exhaustive_level1=n_l1, level2_total=l2_all,
         level2_run=len(l2), primitive_cases_total=prim_all, primitive_cases_run=len(prim), random_cases=nrand, model_claims=claims, histogram=dict(hist),
         correspondence_disagreements=len(disagreements),
+        history={"steps": h_steps, "model_cases": len(rb_items), "model_claims": rb_claims, "expression_violations": len(h_expr), "history_dependent_results": len(h_dependent),
+                 "program_failures": len(h_failures)},
         sweep={"programs": len(jobs), "rewritten": changed, "failures": len(failures),
                "failures_matched_to_findings": len(failures) - len(unmatched)},
         eval_wall_s=round(t_eval, 1), stage_wall_s=stage, tables_ok=tables_ok,
@@ -732,7 +859,10 @@ TRUSTED = [
     "and the model of literal_value: the tool calls CPython's own functions on values",
 ]
 ASSUMPTIONS = [
-    "builtin names are not rebound by the program being refactored (literal_value calls builtins.<name>)",
+    "T15_1..T15_6 are about a file that rebinds no builtin name (lv = lv_rb []); rebinding is covered by lv_rb / eval_rb "
+    "(T15_7a-d), where a call through a name the file binds is outside the claim (Gap)",
+    "literal_value depends on (expression, names the file rebinds) only, not on what the process evaluated before: "
+    "checked on the real code by the history family (both orders in one process vs a fresh process vs lv_rb), not a theorem",
     "float / set / dict valued constant expressions are outside every theorem (covered by no claim, counted as Gap)",
     "expressions that take unbounded time or memory to evaluate (2 ** 10 ** 10) are outside the model; see finding F15-5",
 ]
@@ -1036,7 +1166,31 @@ def _rebound_container_builtin(f) -> bool:
         tree, {"list", "tuple", "set", "dict", "sorted"})
 
 
-SIGS = {"self_equality_of_name": _self_equality_of_name, "same_text_operands_symmath": _same_text_operands_symmath,
+def _boolop_truth_context_drops_unbound_name(f) -> bool:
+    """F15-23: where only the TRUTH of an and/or is observed, the BoolOp branch of simplify_boolean_expressions folds
+    `x or <truthy constant>` to True (`x and <falsy constant>` to False): the plain name is no longer read.  The
+    tool's convention is that reading a name has no effect; the only observable difference is the NameError of a
+    name that is bound nowhere.  Structural predicate: that rule (or the pipeline); the original raised NameError and
+    the output does not; the program has an and/or WITHOUT ANY CALL in it that reads a name which the program binds
+    nowhere and which is not a builtin."""
+    if f["rule"] not in ("simplify_boolean_expressions", "format_code"):
+        return False
+    problem = f.get("problem", "")
+    if "'NameError'] after [" not in problem or problem.endswith("'NameError']"):
+        return False
+    tree = _parse_or_none(f["program"])
+    if tree is None:
+        return False
+    bound = HH.bound_names(f["program"]) | set(dir(builtins))
+    for n in ast.walk(tree):
+        if isinstance(n, ast.BoolOp) and not any(isinstance(x, ast.Call) for x in ast.walk(n)):
+            if any(isinstance(x, ast.Name) and isinstance(x.ctx, ast.Load) and x.id not in bound for x in ast.walk(n)):
+                return True
+    return False
+
+
+SIGS = {"boolop_truth_context_drops_unbound_name": _boolop_truth_context_drops_unbound_name,
+        "self_equality_of_name": _self_equality_of_name, "same_text_operands_symmath": _same_text_operands_symmath,
         "rebound_sum": _rebound_sum, "rebound_container_builtin": _rebound_container_builtin,
         "boolop_constant_fold": _boolop_constant_fold, "unbounded_evaluation": _unbounded_evaluation,
         "boolop_truth_context_drops_call": _boolop_truth_context_drops_call}
@@ -1047,6 +1201,7 @@ WITNESS = {
     "F15-14": ("simplify_math_iterators", "def sum(*a):\n    return 0\nprint(sum((1, 2)))\n"),
     "F15-15": ("replace_functions_with_literals", "def list(*a):\n    return 1\nprint(list(()))\n"),
     "F15-7": ("remove_dead_ifs", "if 3 ** 10 ** 8:\n    print(1)\n"),
+    "F15-23": ("simplify_boolean_expressions", "if (0 or x) or 'a':\n    print(1)\nelse:\n    print(2)\n"),
 }
 
 
@@ -1054,8 +1209,23 @@ def replay(path: str) -> int:
     data = json.loads(Path(path).read_text())
     mods = common.import_impl()
     print(json.dumps({k: data[k] for k in data if k in ("kind", "explanation", "expr", "shape", "rule", "program",
-                                                       "output", "problem", "detail")}, indent=1, default=str))
+                                                       "output", "problem", "detail", "source", "builtin",
+                                                       "rebinding", "order", "in_a_fresh_process")}, indent=1, default=str))
     wd = common.workdir(PID + "-replay")
+    if data.get("history"):
+        # a failure that needs the earlier steps: the whole history again, in one fresh process
+        steps = data["history"]
+        rs = HH.run_histories([steps], HH.make_step_job(mods), 1, str(wd / "sandbox"))[0]
+        last, r = steps[-1], rs[-1] or {"hang": True}
+        if last["a"] == "lv":
+            v = direct_disagreement(r)
+        else:
+            v = program_verdict(r)
+        for s_, r_ in zip(steps, rs):
+            print("step:", s_["a"], s_.get("rule", s_.get("expr")), "on", repr(s_["src"])[:120], "->",
+                  json.dumps(_step_signature(s_, r_), default=str)[:200])
+        print("now:", v or "no longer fails")
+        return 1 if v else 0
     if data.get("kind") == "property-oracle":
         r = c15_worker.run_jobs([(data["rule"], data["program"])], make_program_job(mods), 1, str(wd / "sandbox"))[0]
         print("now:", program_verdict(r) or "no longer fails", json.dumps(r, default=str)[:600])
